@@ -2,6 +2,7 @@
 CONSTANTS
   Threads <- T2
   Keys <- K3
+  DirectKeys = {}
   DepsOpts <- AllGraphs
   LoadsOpts <- W_sim
   SharedOpts = {TRUE, FALSE}
